@@ -13,7 +13,7 @@ from gfv.core import Failure
 PROP = "C17"
 RULE = (
     "mappings with arbitrary-Unicode keys and values, empty lists, scalars and tuples, set through Feature[...], "
-    ".attributes[...], .attributes.update and the constructor, under both always_return_list settings; pairs of mappings "
+    ".attributes[...], .attributes.update and the constructor, under both always_return_list settings (a labelled share calls FeatureDB.bed12 - by Feature or id, name field present or absent - while the switch is off: it stays off); pairs of mappings "
     "(plain dicts and Attributes) for merge_attributes with numeric_sort on/off; pairs of Features differing in one field, "
     "in attribute order or in dialect. Non-trivial = a non-ASCII or reserved character, a scalar or empty value, or (pairs) a "
     "shared key with different values. Distinct by hash."
